@@ -369,7 +369,7 @@ class C06(Prop):
             "or an element of a vector, all four functions of both laws) gives zero, never nan or an error; strain / strain_secondary_branch "
             "= Ramberg-Osgood (delta) strain of the stress (independent formula, relative 1e-12) for ndarray / Series / scalar / a vector with "
             "zeros, odd, and at the returned stress equal to the right-hand side of the defining equation at the reference root within the "
-            "propagated tolerance; a re-used object whose K_p / K' were changed through the setters behaves as a freshly constructed one; a "
+            "propagated tolerance; Seeger-Beste: a 2-d load / stress array with one K_p per column (law built with a K_p vector; array path only) equals the per-column calls bit for bit, keeps its shape, and holds roots within the tolerance (class seegerbeste-ndim); a re-used object whose K_p / K' were changed through the setters behaves as a freshly constructed one; a "
             "solver RuntimeError is a failure (class *-solver-raises unless the recorded defective algorithm raises on the same call).  All "
             "clauses are evaluated for every case (a known-class failure only removes that element from the relations between values); "
             "counts per class in distribution.failing_cases_* / failing_elements_*.  Non-trivial = every case in which at least one solver "
@@ -957,6 +957,70 @@ class C06(Prop):
                                       f"call gives {q!r}", "seegerbeste-backward-vector"))
             # ---------------- the strains
             F.extend(self._oracle_strain(case, br, name, r, taint, a is not None))
+        if not neuber:
+            F.extend(self._oracle_ndim(case))
+        return F
+
+    def _oracle_ndim(self, case):
+        """Seeger-Beste, array path only: a 2-d load (stress) array with one K_p per column - the law object is built with a
+        K_p vector, every column belongs to one node - gives for every column what the law with that column's K_p gives for the
+        column alone (bit for bit: every element is solved on its own), has the shape of the input, and every value is the root
+        within the tolerance."""
+        import pylife.materiallaws.notch_approximation_law_seegerbeste as sbm
+        F = []
+        E, K, n_, Kp, t = case["E"], case["K"], case["n"], case["Kp"], case["tol"]
+        kps = [Kp] + [k for k in (1.5, 3.5, 10.0, 1.05) if k != Kp][:2]
+        Ls = [float(x) for x in case["loads"]]
+        rows = Ls + [0.0] + [-x for x in Ls[:2]]
+        M = np.array([[x * sg for sg in (1.0, -1.0, 1.0)] for x in rows])
+        what0 = f"sb (E={E!r}, K'={K!r}, n'={n_!r}, K_p={kps!r} one per column, rtol=tol={t!r})"
+        law = sbm.SeegerBeste(E, K, n_, np.array(kps))
+        cols = [sbm.SeegerBeste(E, K, n_, k) for k in kps]
+        with warnings.catch_warnings():
+            warnings.simplefilter("ignore")
+            with np.errstate(all="ignore"):
+                for br in (1, 2):
+                    sfx = "" if br == 1 else "_secondary_branch"
+                    X = M * br
+                    for direction in ("stress", "load"):
+                        fname = direction + sfx
+                        try:
+                            got = np.asarray(fn(law, direction, br)(X, rtol=t, tol=t), dtype=float)
+                        except Exception as e:      # noqa: BLE001
+                            F.append((f"{what0}: {fname} of the {X.shape} array {X.tolist()!r} raises {type(e).__name__}: {str(e)[:120]}",
+                                      "seegerbeste-ndim"))
+                            break
+                        if got.shape != X.shape:
+                            F.append((f"{what0}: {fname} of an array of shape {X.shape} has the shape {got.shape}", "seegerbeste-ndim"))
+                            break
+                        self._count("seegerbeste_2d_values_checked", got.size)
+                        bad = None
+                        for j, (lawj, kj) in enumerate(zip(cols, kps)):
+                            alone = np.asarray(fn(lawj, direction, br)(X[:, j].copy(), rtol=t, tol=t), dtype=float)
+                            cj = dict(case, Kp=kj)
+                            for i in range(X.shape[0]):
+                                x, v, w = float(X[i, j]), float(got[i, j]), float(alone[i])
+                                if not (v == w or (v != v and w != w)):
+                                    bad = (f"{what0}: {fname} of the array {X.tolist()!r} gives {v!r} at [{i}, {j}]; the law with "
+                                           f"K_p={kj!r} gives {w!r} for the column {X[:, j].tolist()!r} alone", "seegerbeste-ndim")
+                                    break
+                                if x == 0:
+                                    root = 0.0
+                                elif direction == "stress":
+                                    root = math.copysign(ref_root(cj, br, abs(x)), x)
+                                else:
+                                    root = math.copysign(self._ref_load(cj, br, abs(x)), x)
+                                if not abs(v - root) <= t + t * abs(root):
+                                    bad = (f"{what0}: {fname} of the array {X.tolist()!r} gives {v!r} at [{i}, {j}] (K_p={kj!r}, argument "
+                                           f"{x!r}); root of the defining equation {root!r}", "seegerbeste-ndim")
+                                    break
+                            if bad:
+                                break
+                        if bad:
+                            F.append(bad)
+                            break
+                        if direction == "stress":
+                            X = got          # the backward function on the returned stresses
         return F
 
     def _oracle_strain(self, case, br, name, r, taint, have_roots):
